@@ -137,6 +137,42 @@ func stress(rng *rand.Rand) string {
 	}
 }
 
+// compactErr: statements that are well-formed except for ONE semantic error (unknown function,
+// wrong argument count), written compactly and with long argument lists / operator chains — the
+// error-reporting paths (context formatting, position arithmetic on re-joined clause text).
+func c11CompactErr(rng *rand.Rand) string {
+	names := []string{"myudf", "f", "nosuchfn", "abs", "upper", "concat", "zz9"}
+	name := names[rng.Intn(len(names))]
+	n := 1 + rng.Intn(16)
+	args := make([]string, n)
+	for i := range args {
+		args[i] = []string{"a", "b", "c", "1", "'x'", "t.y", "-2", "2.5"}[rng.Intn(8)]
+	}
+	call := name + "(" + strings.Join(args, ",") + ")"
+	sp := func() string { // optional blank
+		if rng.Intn(4) == 0 {
+			return " "
+		}
+		return ""
+	}
+	switch rng.Intn(7) {
+	case 0:
+		return "SELECT " + call + " FROM t"
+	case 1:
+		return "SELECT * FROM t WHERE " + name + "(0)" + strings.Repeat(sp()+"="+sp()+"1", n)
+	case 2:
+		return "SELECT a+b*" + call + strings.Repeat("+c", n) + " AS r FROM t"
+	case 3:
+		return "SELECT a,COUNT(*) AS c FROM t GROUP BY a,CountingWindow(3) HAVING " + call + ">1"
+	case 4:
+		return "SELECT a FROM t WHERE a>1 AND " + call + "=" + call + " ORDER BY a LIMIT 1"
+	case 5:
+		return "SELECT CASE WHEN " + call + ">0 THEN 1 ELSE 0 END AS r,b FROM t"
+	default:
+		return "SELECT " + call + "," + call + " FROM t WHERE " + call + strings.Repeat(sp()+"AND"+" a>1", n%4)
+	}
+}
+
 func genTotalCase(rng *rand.Rand, tier string) Case {
 	var c Case
 	c.Cfg = append(c.Cfg, []string{"kind", "totality"})
@@ -149,7 +185,10 @@ func genTotalCase(rng *rand.Rand, tier string) Case {
 	}
 	for i := 0; i < 50; i++ {
 		var s string
-		switch k := rng.Intn(20); {
+		switch k := rng.Intn(24); {
+		case k >= 20:
+			s = c11CompactErr(rng)
+			stat("total-single-error-compact")
 		case k < 4:
 			s = randBytes(rng)
 			stat("total-random-bytes")
